@@ -254,7 +254,7 @@ func TestC22(t *testing.T) {
 	defer r.Finish()
 	r.Rule("voting rounds through ImportOuterTransfer on main-net id from {2 VOTE chains, 1 ripple chain} towards one registered chain per account-based router constant (21) and back to a source chain; messages with boundary-biased field sizes (0, 1, 0xfd boundary, kilobytes); classes: valid, destination unregistered, destination blacklisted, replay of an accepted cross-chain id, malformed message bytes; every call (votes below threshold, outsiders, repeat voters, votes after release, deciding calls) goes through the monitor; distinct = (source router, destination router, field lengths) for accepted imports and (router, class) for refused ones")
 	rng := r.Rand("cases")
-	nRounds := r.N(2400, 48000)
+	nRounds := r.N(1500, 45000)
 	var tp *tpl
 	var vm *cs.VoteModel
 	var used map[string]bool
